@@ -267,6 +267,10 @@ def C10(c):
         # accepted instances must not panic however long they run (the same long streams as C07, panics only)
         c.add_suite(run_suite(exe, "indapi", c.seed, c.tier, "C10-long", ["--which", "long"]), sig_method,
                     only=lambda mm: "long_no_panic" in mm.get("sub", "") or "long_no_panic" in mm.get("raw", ""))
+        # accepted METHOD instances must not panic on any finite input: the whole method suite (every stream class: signed
+        # zeros, small alphabets, huge / tiny magnitudes, episodes ...), panics only
+        c.add_suite(run_suite(exe, "methods", c.seed, c.tier, "C10-methods"), sig_method,
+                    only=lambda mm: mm.get("class") == "panic")
     rel = need_harness(c, release=True)
     if rel:
         r = run_suite(rel, "ctor", c.seed, c.tier, "C10-ctor-release")
@@ -487,6 +491,13 @@ def C07(c):
         r2 = run_suite(exe, "indapi", c.seed, c.tier, "C07-indicators", ["--which", "long"])
         c.add_suite(r2, sig_method)
         c.coverage["indicator_late_positions"] = r2.get("stats", {}).get("long_ind_positions", 0)
+        c.coverage["scale_law_steps"] = r2.get("stats", {}).get("scale_law_steps", 0)
+        # long-window configurations of every indicator on long one-directional / wandering streams against the exact model:
+        # counters, latches and streak lengths late in a stream (values, signals; the documented-rule findings of C05 / C06
+        # are not this property's)
+        r3 = run_suite(exe, "ind", c.seed, c.tier, "C07-ind-large", ["--large-only"])
+        c.add_suite(r3, sig_method, only=lambda mm: mm.get("class") in ("ind-value", "ind-signal", "ind-panic", "ind-shape", "ind-init", "ind-finite"))
+        c.coverage["indicator_model_steps"] = r3.get("summary", {}).get("spec_evals", 0)
     return c.finish(
         level="proof",
         trusted=TRUSTED_COMMON + NUMERIC_TRUST + [
